@@ -74,6 +74,10 @@ type encConfig struct {
 	Decrypt func(ct ctext, keyRel string, variant int) ([]byte, error)
 	// Retag recomputes the tag of ct from public data only (nil if the scheme's tag is keyed).
 	Retag func(ct ctext) bool
+	// Shared builds ONE caller-owned ciphertext object from ct and returns a decryption closure that hands that
+	// very object to the library on every call, and a snapshot of the bytes the caller currently holds.
+	// nil: the scheme is exempt from the same-buffer dimension (anon: PreservesInput is false in Encrypt.tla).
+	Shared func(ct ctext) (dec func(keyRel string, variant int) ([]byte, error), snapshot func() []byte)
 }
 
 const tagLen = 16
@@ -100,7 +104,7 @@ func eciesConfigs(seed int64) []*encConfig {
 			l := s.PointLen()
 			out = append(out, &encConfig{Scheme: "ecies", Name: "ecies:" + n + "/" + hv, KeyName: "ecies:" + n, HashSize: 32,
 				Encrypt: func(msg []byte) (ctext, error) {
-					ct, err := ecies.Encrypt(s, X, append([]byte{}, msg...), hf)
+					ct, err := ecies.Encrypt(s, X, msg, hf)
 					if err != nil {
 						return nil, err
 					}
@@ -115,6 +119,18 @@ func eciesConfigs(seed int64) []*encConfig {
 						k = w
 					}
 					return ecies.Decrypt(s, k, ct.bytes(), hf)
+				},
+				Shared: func(ct ctext) (func(string, int) ([]byte, error), func() []byte) {
+					buf := ct.bytes() // the caller's slice
+					return func(keyRel string, _ int) ([]byte, error) {
+							k := x
+							if keyRel == "wrong" {
+								k = w
+							}
+							return ecies.Decrypt(s, k, buf, hf)
+						}, func() []byte {
+							return append([]byte{}, buf...)
+						}
 				}})
 		}
 	}
@@ -182,7 +198,7 @@ func ibeConfigs(seed int64) []*encConfig {
 			}
 			if variant == "ibe-cpa-g1" {
 				cfg.Encrypt = func(msg []byte) (ctext, error) {
-					c, err := ibe.EncryptCPAonG1(s, base, master, id, append([]byte{}, msg...))
+					c, err := ibe.EncryptCPAonG1(s, base, master, id, msg)
 					if err != nil {
 						return nil, err
 					}
@@ -199,13 +215,23 @@ func ibeConfigs(seed int64) []*encConfig {
 					}
 					return ibe.DecryptCPAonG1(s, pick(keyRel, v), &ibe.CiphertextCPA{RP: rp, C: ct.field("body").B})
 				}
+				cfg.Shared = func(ct ctext) (func(string, int) ([]byte, error), func() []byte) {
+					rp := ptGroup.Point()
+					must(rp.UnmarshalBinary(append([]byte{}, ct.field("ephemeral").B...)))
+					c := &ibe.CiphertextCPA{RP: rp, C: append([]byte{}, ct.field("body").B...)} // the caller's object
+					return func(keyRel string, v int) ([]byte, error) { return ibe.DecryptCPAonG1(s, pick(keyRel, v), c) },
+						func() []byte {
+							b, _ := c.RP.MarshalBinary()
+							return append(b, c.C...)
+						}
+				}
 			} else {
 				enc, dec := ibe.EncryptCCAonG1, ibe.DecryptCCAonG1
 				if variant == "ibe-cca-g2" {
 					enc, dec = ibe.EncryptCCAonG2, ibe.DecryptCCAonG2
 				}
 				cfg.Encrypt = func(msg []byte) (ctext, error) {
-					c, err := enc(s, master, id, append([]byte{}, msg...))
+					c, err := enc(s, master, id, msg)
 					if err != nil {
 						return nil, err
 					}
@@ -221,6 +247,16 @@ func ibeConfigs(seed int64) []*encConfig {
 						return nil, err
 					}
 					return dec(s, pick(keyRel, v), &ibe.Ciphertext{U: u, V: ct.field("header").B, W: ct.field("body").B})
+				}
+				cfg.Shared = func(ct ctext) (func(string, int) ([]byte, error), func() []byte) {
+					u := ptGroup.Point()
+					must(u.UnmarshalBinary(append([]byte{}, ct.field("ephemeral").B...)))
+					c := &ibe.Ciphertext{U: u, V: append([]byte{}, ct.field("header").B...), W: append([]byte{}, ct.field("body").B...)}
+					return func(keyRel string, v int) ([]byte, error) { return dec(s, pick(keyRel, v), c) },
+						func() []byte {
+							b, _ := c.U.MarshalBinary()
+							return append(append(b, c.V...), c.W...)
+						}
 				}
 			}
 			out = append(out, cfg)
@@ -275,7 +311,7 @@ func anonConfigs(seed int64, thorough bool) []*encConfig {
 				out = append(out, &encConfig{Scheme: "anon", Name: fmt.Sprintf("anon:%s/n=%d/i=%d", n, size, mine), KeyName: "anon:" + n, HashSize: 32,
 					NoPairs: size != 1 && size != 3,
 					Encrypt: func(msg []byte) (ctext, error) {
-						ct, err := anon.Encrypt(s, append([]byte{}, msg...), set)
+						ct, err := anon.Encrypt(s, msg, set)
 						if err != nil {
 							return nil, err
 						}
@@ -483,11 +519,12 @@ func applyAlt(c *encConfig, ct ctext, a alt, every bool) []ctext {
 // ---- replay
 
 type encInstance struct {
-	msg []byte
-	ct  ctext
-	err error
-	pan string
-	stk string
+	msg        []byte
+	msgTouched bool // Encrypt wrote to the caller's message slice
+	ct         ctext
+	err        error
+	pan        string
+	stk        string
 }
 
 type encCache struct {
@@ -506,7 +543,9 @@ func (ec *encCache) get(c *encConfig, lc string, inst int, seed int64) *encInsta
 	msg := make([]byte, n)
 	core.Rng(seed, "msg", c.Name, lc, fmt.Sprint(inst)).Read(msg)
 	e := &encInstance{msg: msg}
-	e.pan, e.stk, _ = core.Try(func() { e.ct, e.err = c.Encrypt(msg) })
+	own := append([]byte{}, msg...) // the caller's message slice, handed to the library as is
+	e.pan, e.stk, _ = core.Try(func() { e.ct, e.err = c.Encrypt(own) })
+	e.msgTouched = !bytes.Equal(own, msg)
 	ec.m[k] = e
 	return e
 }
@@ -596,6 +635,8 @@ type EncStep struct {
 	Field   string   `json:"field,omitempty"`
 	Kind    string   `json:"kind,omitempty"`
 	Key     string   `json:"key,omitempty"`
+	Buffer  []string `json:"buffer,omitempty"`  // SharedDecrypt: allowed states of the caller's ciphertext afterwards
+	Message []string `json:"message,omitempty"` // Encrypt: allowed states of the caller's message slice afterwards
 }
 
 type EncBehaviour []EncStep
@@ -652,6 +693,12 @@ func encReplayOne(cfg Config, res *core.Result, c *encConfig, cache *encCache, b
 			detail(0, e0.Allowed, encOut, map[string]any{"error": errS, "panic": e.pan, "stack": e.stk}))
 		return true
 	}
+	if encOut == "ok" && e.msgTouched && !in(e0.Message, "modified") {
+		res.Eval(id + "|enc")
+		res.Violate(key("encrypt", "message-modified"), fmt.Sprintf("%s: Encrypt wrote to the caller's %d-byte message slice", c.Name, len(e.msg)),
+			detail(0, "message intact", "message modified", nil))
+		return true
+	}
 	if encOut != e0.Outcome {
 		return false
 	}
@@ -669,6 +716,69 @@ func encReplayOne(cfg Config, res *core.Result, c *encConfig, cache *encCache, b
 		if off, l := leak(e.msg, e.ct); l {
 			res.Violate(key("leak"), fmt.Sprintf("%s: the ciphertext of a %d-byte incompressible message contains plaintext bytes %d..%d in the clear", c.Name, len(e.msg), off, off+8),
 				detail(1, b[1].Allowed, "leak", map[string]any{"ciphertext_hex": hexs(e.ct.bytes()), "offset": off}))
+		}
+		return true
+	}
+	// SharedDecrypt+ ; SharedLeakScan: all calls on ONE caller-owned ciphertext
+	if b[1].Act == "SharedDecrypt" {
+		if c.Shared == nil {
+			return false
+		}
+		if inst > 0 {
+			return false
+		}
+		var seq []string
+		dec, snap := c.Shared(e.ct.clone())
+		orig := snap()
+		for si, st := range b[1:] {
+			switch st.Act {
+			case "SharedDecrypt":
+				seq = append(seq, st.Key)
+				name := "same-buffer:" + strings.Join(seq, ">")
+				var msg []byte
+				var derr error
+				pmsg, stk, pan := core.Try(func() { msg, derr = dec(st.Key, 0) })
+				got := "ok"
+				switch {
+				case pan:
+					got = "crash"
+				case derr != nil:
+					got = "error"
+				case !bytes.Equal(msg, e.msg):
+					got = "other"
+				}
+				res.Eval(fmt.Sprintf("%s|%s|%d", id, name, si))
+				errS := ""
+				if derr != nil {
+					errS = derr.Error()
+				}
+				now := snap()
+				if !in(st.Allowed, got) {
+					// the buffer has been byte-identical to the ciphertext after every earlier call (checked below), so
+					// this is the abstract case "untouched ciphertext, key k" whatever was called before: same key
+					res.Violate(key("untouched", "key="+st.Key, got),
+						fmt.Sprintf("%s: call %d on the same caller-owned ciphertext (keys so far %v, message class %s) -> %s, specification allows %v", c.Name, si+1, seq, e0.Len, got, st.Allowed),
+						detail(si+1, st.Allowed, got, map[string]any{"ciphertext_hex": hexs(orig), "buffer_now_hex": hexs(now), "returned_hex": hexs(msg), "error": errS, "panic": pmsg, "stack": stk}))
+					return true
+				}
+				if !bytes.Equal(now, orig) && !in(st.Buffer, "modified") {
+					res.Violate(key(name, "buffer-modified"),
+						fmt.Sprintf("%s: Decrypt (key %s) wrote to the caller's ciphertext (message class %s)", c.Name, st.Key, e0.Len),
+						detail(si+1, "buffer intact", "buffer modified", map[string]any{"ciphertext_hex": hexs(orig), "buffer_now_hex": hexs(now)}))
+					return true
+				}
+			case "SharedLeakScan":
+				if len(e.msg) < 8 {
+					res.Skip("leakscan-message-shorter-than-a-block")
+					continue
+				}
+				name := "same-buffer:" + strings.Join(seq, ">")
+				res.Eval(fmt.Sprintf("%s|%s|leak", id, name))
+				if off, l := leak(e.msg, ctext{{"ephemeral", snap()}}); l {
+					res.Violate(key(name, "leak"), fmt.Sprintf("%s: after decryption the caller's ciphertext buffer holds plaintext bytes %d.. in the clear", c.Name, off),
+						detail(si+1, st.Allowed, "leak", map[string]any{"ciphertext_hex": hexs(orig), "buffer_now_hex": hexs(snap())}))
+				}
+			}
 		}
 		return true
 	}
